@@ -325,6 +325,8 @@ static int runScript(const char* scriptPath, const char* outPath, int tid) {
             res = classify([&]() {
                 const Frame& f = cur->data().frame(fi);
                 if (t[2] == "pt") { size_t i = std::strtoull(t[3].c_str(), 0, 10); Point& p = f.points_nonConst().point_nonConst(i); p.x(unhex8(t[4])); p.y(unhex8(t[5])); p.z(unhex8(t[6])); p.residual(unhex8(t[7])); }
+                else if (t[2] == "ptname") { size_t i = std::strtoull(t[3].c_str(), 0, 10); f.points_nonConst().point_nonConst(i).name(unx(t[4])); }      // rename a stored point
+                else if (t[2] == "chname") { size_t k = std::strtoull(t[3].c_str(), 0, 10), i = std::strtoull(t[4].c_str(), 0, 10); f.analogs_nonConst().subframe_nonConst(k).channel_nonConst(i).name(unx(t[5])); }
                 else { size_t k = std::strtoull(t[3].c_str(), 0, 10), i = std::strtoull(t[4].c_str(), 0, 10); f.analogs_nonConst().subframe_nonConst(k).channel_nonConst(i).data(unhex8(t[5])); }
             });
         }
